@@ -39,6 +39,7 @@ type Frame struct {
 	isInit   bool
 	anchorOrd   map[string]int
 	afterOrd    map[string]int
+	curCallArgs []*V
 	usedAnchors map[string]bool
 }
 
@@ -603,7 +604,10 @@ func rpo(fn *ssa.Function) []*ssa.BasicBlock {
 	var dfs func(b *ssa.BasicBlock)
 	dfs = func(b *ssa.BasicBlock) {
 		seen[b] = true
-		for _, s := range b.Succs {
+		// successors in reverse, so that the reverse postorder lists the "then" side first
+		// (ordinals of anchors and obligations then follow the source order)
+		for k := len(b.Succs) - 1; k >= 0; k-- {
+			s := b.Succs[k]
 			if !seen[s] && !s.Dominates(b) {
 				dfs(s)
 			}
@@ -748,7 +752,9 @@ func (f *Frame) run(st *State) ([]*V, *State) {
 	f.indexVars()
 	f.order = rpo(fn)
 	rc := &runCtx{out: map[*ssa.BasicBlock]*State{}, edge: map[[2]int]T{}}
+	nlocals := len(u.localRefs)
 	f.runBlocks(rc, nil, nil, st)
+	u.localRefs = u.localRefs[:nlocals]
 	// merge returns
 	if len(f.rets) == 0 {
 		return nil, &State{reach: tFalse, heap: st.heap, alloc: st.alloc, epoch: st.epoch}
@@ -901,6 +907,8 @@ func (u *Unit) globalPtr(g *ssa.Global) *V {
 		u.declared["sentinel:"+name] = true
 		me := sel(u.epochInit("G:"+name, arrSort(SInt, SInt), 0), intLit(0))
 		u.emitFact(app(SBool, ">", me, intLit(0)))
+		// a package-level error value exists since package initialisation
+		u.emitFact(app(SBool, "<=", me, intLit(1000)))
 		for _, o := range u.sentinels {
 			u.emitFact(not(eq(me, o)))
 		}
